@@ -131,6 +131,12 @@ class Session(object):
             # protocol itself): answer 250 OK like Tor would
             self.unscripted += 1
             rep = (250, [("end", "OK")])
+            if line.startswith(b"SETEVENTS") and n >= self._n_boot:
+                k = self.setevents_seen = getattr(self, "setevents_seen", 0) + 1
+                if k in getattr(self, "refuse_setevents", ()):
+                    # Tor (or a control-port filter) refuses this subscription change
+                    rep = (552, [("end", "Unrecognized event \"X\"")])
+                    self.setevents_refused = getattr(self, "setevents_refused", 0) + 1
         code, parts = rep
         enc = R.encode(code, parts)
         self.out += enc
